@@ -165,7 +165,7 @@ fn check_tuple(rep: &Report, tys: &[Ty], idx: usize, env: &drive::Env) {
                 }
             }
         });
-        if idx % 37 == 5 && lit_ix.iter().all(|&z| z == 0) {
+        if (idx % 37 == 5 && lit_ix.iter().all(|&z| z == 0)) || rep.no_sample_yet() {
             rep.sample(4, || json!({"types": tys.iter().map(|t| t.render()).collect::<Vec<_>>(), "program": text}));
         }
     });
